@@ -85,6 +85,11 @@ func VerifC14_Lifecycle() {
 		e.kc.FaultMax = stubs.FaultNotFound              // conflicts: thorough tier
 		e.cp.CreateErrors = []int{stubs.CreateOther} // capacity errors are VerifC14_CapacityErrorsDelete's subject
 	}
+	if len(e.cp.CreateErrors) == 0 {
+		// every kind of launch error; of the CreateError-wrapped forms the capacity error (the wrapped forms are
+		// VerifC14_CapacityErrorsDelete's subject)
+		e.cp.CreateErrors = []int{stubs.CreateInsufficientCapacity, stubs.CreateOther, stubs.CreateWrappedInsufficientCapacity}
+	}
 	e.cp.OnCreate = func(nc *v1.NodeClaim) {
 		stored := e.kc.StoredClaim("nc-1")
 		verifrt.Assert(stored != nil && stubs.HasFinalizer(stored, v1.TerminationFinalizer), "no instance is created before the termination finalizer is on the NodeClaim")
@@ -159,7 +164,7 @@ func VerifC14_CapacityErrorsDelete() {
 	}
 	verifrt.Reach("create-failed")
 	last := e.cp.LastCreateOutcome
-	if last == stubs.CreateInsufficientCapacity || last == stubs.CreateNodeClassNotReady {
+	if last == stubs.CreateInsufficientCapacity || last == stubs.CreateNodeClassNotReady || last == stubs.CreateWrappedInsufficientCapacity || last == stubs.CreateWrappedNodeClassNotReady {
 		_, tried := e.kc.LastOK("delete", "NodeClaim")
 		verifrt.Assert(tried, "an insufficient-capacity or nodeclass-not-ready error deletes the NodeClaim instead of retrying")
 		verifrt.Reach("deleted-on-capacity-error")
